@@ -13,12 +13,55 @@ def describe(tier):
                  "count of the common value in the dense model equals the maximum count; (b) every resulting state == the harness-built twin with the same (shape, common, "
                  "dense), both ways, and != returns exactly (not ==) without raising; after the search all pairs of reached states inside each shape bucket (neighbour pairs "
                  "where a bucket is large: same dense with different common, same common with dense differing in one cell, reflexive pairs with opposite insertion order) "
-                 "satisfy a == b iff the triples coincide; comparison with non-indexes is False." % d["rule"][:160])
+                 "satisfy a == b iff the triples coincide; comparison with non-indexes is False. Plus (a) for from_array with the common omitted over every small array x "
+                 "mapping (none, permutation, two many-to-one, all-to-one) x counts (None, exact)." % d["rule"][:160])
     return d
 
 
+def from_array_family(res, tier):
+    """C15a for `building from an array without one`: every small array x mapping (none / permutation / many-to-one / all-to-one) x counts
+    (None / exact) with the common value omitted: the chosen common must be a most frequent value of the (mapped) array."""
+    import itertools
+
+    import numpy
+
+    from catii.iindexes import iindex
+
+    from .. import models as M
+    from . import c01
+
+    viol = []
+    n = 0
+    shapes = [(k,) for k in range(1, 6)] + [(1, 2), (2, 2), (3, 2), (2, 3)]
+    if tier == "thorough":
+        shapes += [(6,), (4, 2), (3, 3)]
+    embs = [(0, 1, 2, 3), (5, -1, 300, 7)]
+    for sh in shapes:
+        for a in M.all_arrays(sh, range(3)):
+            for emb in embs:
+                ea = numpy.array(emb[:3], dtype=numpy.int64)[a]
+                for mk in c01.MAPPINGS:
+                    mapping = c01.make_mapping(mk, emb)
+                    for uc in (False, True):
+                        counts = None
+                        if uc:
+                            counts = {}
+                            for v in ea.flat:
+                                counts[int(v)] = counts.get(int(v), 0) + 1
+                        n += 1
+                        try:
+                            idx = iindex.from_array(ea, counts=counts, mapping=dict(mapping) if mapping else None)
+                        except Exception as e:  # noqa
+                            continue  # C01 reports construction failures
+                        dense = ea if mapping is None else numpy.vectorize(mapping.get, otypes=[numpy.int64])(ea)
+                        if not hist.most_frequent_ok(dense, idx.common):
+                            viol.append({"property": "C15", "site": "from_array:common-not-most-frequent", "op": {"op": "from_array", "array": ea.tolist(), "mapping": mk, "counts": uc},
+                                         "detail": "from_array chose common %r for (mapped) array %r" % (idx.common, dense.tolist()), "state": hist.key_from_dense(numpy.zeros((0,), dtype=numpy.int64), 0), "depth": 0})
+    return viol, {"from_array_option_cases": n}
+
+
 def main(tier, all_violations=False, t0=None):
-    return histprop.run(__import__("vf.props.c15", fromlist=["x"]), tier, all_violations, t0)
+    return histprop.run(__import__("vf.props.c15", fromlist=["x"]), tier, all_violations, t0, extra=from_array_family)
 
 
 def replay(case, site=None):
